@@ -160,10 +160,18 @@ def run_sequence(c, tmp, rng, idx):
     os.makedirs(os.path.join(d, "sub.dir"), exist_ok=True)
     path = os.path.join(d, name)
     ops = gen_ops(rng, rng.randint(1, 8))
-    hs = [xyzpy.Harvester(runner(0), data_name=path, engine=engine) for _ in range(2)]
+    # one sequence in six: the harvesters are CONSTRUCTED with the other engine and every call names the
+    # engine itself (engine=...): everything must then be read from / written to the per-call engine's file
+    percall = rng.random() < 0.17
+    ctor_engine = ({"h5netcdf": "joblib", "joblib": "h5netcdf"}[engine]) if percall else engine
+    ek = {"engine": engine} if percall else {}
+
+    def new_h():
+        return xyzpy.Harvester(runner(0), data_name=path, engine=ctor_engine)
+    hs = [new_h() for _ in range(2)]
     model_ops, obs = [], []
     abstract, synced_ok = None, True        # the property's own bookkeeping (dict point -> value)
-    rep = {"engine": engine, "name": name, "ops": [list(map(str, o)) for o in ops]}
+    rep = {"engine": engine, "name": name, "ops": [list(map(str, o)) for o in ops], "engine_per_call": percall}
 
     def file_ds():
         p = xyzpy.manage.auto_add_extension(path, engine)
@@ -206,15 +214,15 @@ def run_sequence(c, tmp, rng, idx):
             if kind == "combos":
                 _, who, a, b, v, pol, sync = op
                 hs[who].runner.fn = functools.partial(fn_version, v)
-                hs[who].harvest_combos({"a": a, "b": b}, overwrite=pol, sync=sync, verbosity=0)
+                hs[who].harvest_combos({"a": a, "b": b}, overwrite=pol, sync=sync, verbosity=0, **ek)
             elif kind == "cases":
                 _, who, cases, v, pol, sync = op
                 hs[who].runner.fn = functools.partial(fn_version, v)
-                hs[who].harvest_cases(cases, overwrite=pol, sync=sync, verbosity=0)
+                hs[who].harvest_cases(cases, overwrite=pol, sync=sync, verbosity=0, **ek)
             elif kind == "add_ds":
                 _, who, a, b, v, pol, sync = op
                 ds = runner(v).run_combos({"a": a, "b": b}, verbosity=0)
-                hs[who].add_ds(ds, overwrite=pol, sync=sync)
+                hs[who].add_ds(ds, overwrite=pol, sync=sync, **ek)
             elif kind == "save_merge":
                 _, a, b, v, pol = op
                 ds = runner(v).run_combos({"a": a, "b": b}, verbosity=0)
@@ -223,11 +231,11 @@ def run_sequence(c, tmp, rng, idx):
                 _, who, a, b, v, pol, tmp_exists = op
                 ds = runner(v).run_combos({"a": a, "b": b}, verbosity=0)
                 with failing_write(tmp_exists):
-                    hs[who].add_ds(ds, overwrite=pol, sync=True)
+                    hs[who].add_ds(ds, overwrite=pol, sync=True, **ek)
             elif kind == "new_session":
-                hs[op[1]] = xyzpy.Harvester(runner(0), data_name=path, engine=engine)
+                hs[op[1]] = new_h()
             elif kind == "drop":
-                hs[op[1]].drop_sel(a=op[2])
+                hs[op[1]].drop_sel(a=op[2], **ek)
         except Exception as e:  # noqa
             raised = True
             err = f"{type(e).__name__}: {str(e)[:120]}"
@@ -343,7 +351,7 @@ def run(tier, seed):
                    sample={**rep, "observations": obs} if len(ops) <= 3 else None)
             for o in ops:
                 c.count("op", o[0])
-            c.count("engine", rep["engine"]); c.count("name", rep["name"]); c.count("len", len(ops))
+            c.count("engine", rep["engine"]); c.count("engine_per_call", rep["engine_per_call"]); c.count("name", rep["name"]); c.count("len", len(ops))
             pairs.append((model, obs))
             metas.append(rep)
         bad, _ = core.safe_run_cases(c, "Prelude Grid Names Harvest HarvestFlow HarvestInst GenNames GenHarvest", pairs, chunk=60)
